@@ -49,10 +49,43 @@ def seeded_table():
     return "\n".join(rows)
 
 
+def modules_table():
+    """Every TLA+ module under spec/: size, first line of its header comment, configurations, checks that run it."""
+    checks = {}
+    for cp in sorted(glob.glob(os.path.join(ROOT, "checks", "*.py"))):
+        checks[os.path.basename(cp)[:-3]] = open(cp).read()
+    fam = {"sdp_common": ["C06", "C07", "C08", "C09", "C10", "C11", "C12", "C16"], "jsep_common": ["C01", "C02", "C03"]}
+    for common in ("annexb_common", "ivf_common", "ogg_common"):
+        fam[common] = [c for c, t in checks.items() if re.match(r"C\d+$", c) and common in t]
+    rows = ["| module | lines | configurations | used by | about |", "|---|---|---|---|---|"]
+    for tp in sorted(glob.glob(os.path.join(ROOT, "spec", "*.tla"))):
+        name = os.path.basename(tp)[:-4]
+        text = open(tp).read()
+        m = re.search(r"\(\*(.*?)\*\)", text, re.S)
+        about = ""
+        if m:
+            about = " ".join(x.strip(" *") for x in m.group(1).splitlines())
+            about = re.sub(r"\s+", " ", about).strip()
+            about = (about[:150].rsplit(" ", 1)[0] + " …") if len(about) > 150 else about
+        cfgs = [c for c in glob.glob(os.path.join(ROOT, "spec", "*.cfg"))
+                if os.path.basename(c)[:-4] == name or os.path.basename(c).startswith(name + "_")]
+        if name.endswith("_Trace"):
+            cfgs = [c for c in cfgs if os.path.basename(c).startswith(name)]
+        else:
+            cfgs = [c for c in cfgs if "_Trace" not in os.path.basename(c)]
+        users = set()
+        for cname, ctext in checks.items():
+            if re.search(r"[\"'/ ]%s[\"'._ ]" % re.escape(name), ctext):
+                users |= set(fam.get(cname, [cname]))
+        rows.append("| `%s` | %d | %d | %s | %s |" % (name, text.count("\n"), len(cfgs),
+                    ", ".join(sorted(u for u in users if re.match(r"C\d+$", u))), about.replace("|", "/")))
+    return "\n".join(rows)
+
+
 def main():
     p = os.path.join(ROOT, "DESIGN.md")
     s = open(p).read()
-    for key, fn in (("status", status_table), ("seeded", seeded_table)):
+    for key, fn in (("status", status_table), ("seeded", seeded_table), ("modules", modules_table)):
         a, b = "<!-- BEGIN GENERATED:%s -->" % key, "<!-- END GENERATED:%s -->" % key
         if a in s and b in s:
             s = s[:s.index(a) + len(a)] + "\n" + fn() + "\n" + s[s.index(b):]
